@@ -6,7 +6,7 @@
    every theorem below is re-proved against what the code says now. *)
 From Verif Require Import Common.Base.
 From Verif Require Import Generated.C15Recv Generated.C15GrpcExp Generated.C15HttpExp Generated.C15StatusUtil.
-From Verif Require Import Generated.C15Shutdown Generated.C15ServerTimeouts Generated.C15RecvHttpGraph Generated.C15ErrorsGraph.
+From Verif Require Import Generated.C15Shutdown Generated.C15ServerTimeouts Generated.C15DecodersGraph Generated.C15RecvHttpGraph Generated.C15ErrorsGraph.
 From Verif Require Import C15.Model C15.Harness C15.Proofs C15.Obligations C15.PropCheck C15.Link.
 Local Open Scope Z_scope.
 
@@ -109,6 +109,30 @@ Theorem slow_consumer_beyond_write_timeout : forall cfg d t a n, t <> Grpc -> a 
   0 < to_write cfg <= d ->
   hop_slow cfg d t a n Accept = mkHop true Retryable None.
 Proof. exact slow_consumer_beyond_write_timeout_l. Qed.
+
+(* ---- "any supported compression" with an explicit compression_algorithms list on the receiver: a compression the
+   receiver lists (wherever it stands in the list, and for "deflate" whether or not "zlib" is listed too) behaves exactly
+   like the default configuration, so every theorem about [hop] applies; one it does not list is refused as a client
+   error, never consumed, permanent for the sender.  The enabled-decoder table is dumped from httpContentDecompressor for
+   every subset of the names in two orders and the model is proved equal to it (decoders_model_matches_code) *)
+Theorem offered_compression_delivers : forall algs comp t a n o,
+  t = Grpc \/ server_accepts algs comp = true -> hop_cfg algs comp t a n o = hop t a n o.
+Proof. exact offered_compression_delivers_l. Qed.
+
+Theorem unlisted_compression_refused : forall algs comp t a n o, t <> Grpc -> server_accepts algs comp = false ->
+  h_called (hop_cfg algs comp t a n o) = false /\
+  h_verdict (hop_cfg algs comp t a n o) = Permanent /\
+  (a <> AuthFail -> h_err_code (hop_cfg algs comp t a n o) = Some codes_InvalidArgument).
+Proof. exact unlisted_compression_refused_l. Qed.
+
+Theorem server_accepts_iff_listed : forall algs name, 0 <= name <= 6 -> (server_accepts algs name = true <-> In name algs).
+Proof. exact server_accepts_listed. Qed.
+
+Theorem decoders_model_matches_code : forallb check_case decoders_graph = true.
+Proof. exact decoders_model_matches_code_l. Qed.
+
+Theorem decoders_graph_complete : (length decoders_graph = 1736)%nat.
+Proof. exact decoders_graph_complete_l. Qed.
 
 (* ---- the same over HISTORIES: any finite sequence of sends (any mix of transports, authenticator states, item
    counts, consumer outcomes) through one receiver.  The sink receives exactly the sends that are authenticated and
@@ -373,6 +397,10 @@ Theorem model_slow_consumer_passes_checker : forall t read_ms write_ms hold_ms n
             (hop_obs (hop_slow (mkTO (read_ms * 1000000) 0 (write_ms * 1000000) 0) (hold_ms * 1000000) t NoAuth n o))) = true.
 Proof. exact model_slow_consumer_passes_checker_l. Qed.
 
+Theorem model_cfg_hop_passes_checker : forall algs comp t n o,
+  decide (cfg_form algs comp (tz_of t) (Z.of_N n) o (hop_obs (hop_cfg algs comp t NoAuth n o))) = true.
+Proof. exact model_cfg_hop_passes_checker_l. Qed.
+
 Theorem model_raw_http_passes_checker : forall a e p c b o,
   decide (raw_http_form (az_of a) (ez_of e) (b2z p) (cz_of c) (bz_of b) o
             (http_obs (recv_http (mkReq a e p c b) o))) = true.
@@ -398,6 +426,7 @@ Print Assumptions model_hop_passes_checker.
 Print Assumptions model_hop_case_passes_checker.
 Print Assumptions model_shutdown_passes_checker.
 Print Assumptions model_slow_consumer_passes_checker.
+Print Assumptions model_cfg_hop_passes_checker.
 Print Assumptions model_raw_http_passes_checker.
 Print Assumptions model_raw_grpc_passes_checker.
 Print Assumptions model_status_passes_checker.
@@ -423,6 +452,11 @@ Print Assumptions truncated_body_rejected.
 Print Assumptions to_server_copies_timeouts.
 Print Assumptions slow_consumer_within_write_timeout.
 Print Assumptions slow_consumer_beyond_write_timeout.
+Print Assumptions offered_compression_delivers.
+Print Assumptions unlisted_compression_refused.
+Print Assumptions server_accepts_iff_listed.
+Print Assumptions decoders_model_matches_code.
+Print Assumptions decoders_graph_complete.
 Print Assumptions history_sink_and_verdicts.
 Print Assumptions history_success_iff_accepted.
 Print Assumptions consumer_called_iff.
